@@ -12,6 +12,7 @@
 package main
 
 import (
+	"encoding/json"
 	"fmt"
 	"runtime/debug"
 	"strings"
@@ -38,6 +39,7 @@ func envelopeSignature(b []byte) []byte {
 type run struct {
 	c      *vlib.Ctx
 	failed map[string]int
+	seen   map[string]bool // Coq case terms already emitted
 }
 
 // ---------------------------------------------------------------------------
@@ -127,21 +129,36 @@ type built struct {
 	rtErr   error
 }
 
-// build runs the pipeline: content, sign, codec round trip, mutation.
+// build runs the pipeline: content, sign, codec round trip, mutation.  The signed
+// advertisement of a scenario does not depend on the mutation and is made once.
+var signedCache = map[string]*schema.Advertisement{}
+
 func build(sc *scenario) built {
-	ad := unsignedAd(sc)
-	if err := signSafe(sc, ad); err != nil {
-		return built{ad: ad, signErr: err}
-	}
-	if sc.Codec != "" {
-		rt, err := roundTrip(ad, sc.Codec)
-		if err != nil {
-			return built{ad: ad, rtErr: err}
+	base := *sc
+	base.Mut = mutation{}
+	kb, _ := json.Marshal(base)
+	key := string(kb)
+	ad, ok := signedCache[key]
+	if !ok {
+		ad = unsignedAd(sc)
+		if err := signSafe(sc, ad); err != nil {
+			return built{ad: ad, signErr: err}
 		}
-		ad = rt
+		if sc.Codec != "" {
+			rt, err := roundTrip(ad, sc.Codec)
+			if err != nil {
+				return built{ad: ad, rtErr: err}
+			}
+			ad = rt
+		}
+		if len(signedCache) > 20000 {
+			signedCache = map[string]*schema.Advertisement{}
+		}
+		signedCache[key] = ad
 	}
-	ok := applyMutation(sc, ad)
-	return built{ad: ad, applied: ok}
+	ad = cloneAd(ad)
+	applied := applyMutation(sc, ad)
+	return built{ad: ad, applied: applied}
 }
 
 func signSafe(sc *scenario, ad *schema.Advertisement) (err error) {
@@ -176,7 +193,13 @@ func (r *run) check(sc *scenario, emit bool) string {
 		r.c.Eval()
 		r.c.Count("verify:" + obs.Kind)
 		r.c.Count("mut:" + sc.Mut.Kind)
-		r.c.Case("verify", coqVerifyCase(b.ad, obs), sc)
+		// equal presentations with equal outcomes are one model evaluation
+		if term := coqVerifyCase(b.ad, obs); !r.seen[term] {
+			r.seen[term] = true
+			r.c.Case("verify", term, sc)
+		} else {
+			r.c.Count("verify-cases-identical-to-an-earlier-one")
+		}
 	}
 	if obs.Kind == "panic" && sc.Mut.Kind != "nil-entries" {
 		return "VerifySignature panicked: " + obs.Msg
@@ -196,7 +219,7 @@ func (r *run) check(sc *scenario, emit bool) string {
 		}
 	}
 	// the verdict survives both serialisations
-	if sc.Mut.Kind != "nil-entries" && sc.Mut.Kind != "ep-sig-as-ad-sig" {
+	if sc.Mut.Kind != "nil-entries" && sc.Mut.Kind != "ep-sig-as-ad-sig" && (sc.Mut.Kind != "env-byte" || sc.Mut.Index%8 == 0) {
 		for _, codec := range []string{"dag-json", "dag-cbor"} {
 			rt, err := roundTrip(b.ad, codec)
 			if err != nil {
@@ -433,6 +456,9 @@ func (r *run) signCase(sc *scenario, plain bool, dropFetch int) {
 			}
 		}
 		obs = "(Ok " + vlib.CoqList(views) + ")"
+		if plain && sc.Ext || !plain && !signable(sc) {
+			r.c.Fail("sign-accepted:"+scenarioSig(sc), "the library signed an advertisement it documents as unsignable (Sign with extended providers / removal with extended providers / main provider not listed)", sc)
+		}
 		// direct oracle: what was just signed verifies and names the signer
 		if got := verifyReal(ad); got.Kind != "ok" || got.Signer != sc.Signer {
 			r.c.Fail("sign-verify:"+scenarioSig(sc), "an advertisement signed with the library does not verify as signed by its key: "+got.String(), sc)
@@ -460,7 +486,7 @@ func main() {
 	defer c.Finish()
 	c.Family("verify", caseHeader, "fun c => andb pk_selftest (verify_case_ok c)", c.Pick(250, 400))
 	c.Family("sign", caseHeader, "fun c => andb pk_selftest (sign_case_ok c)", 200)
-	r := &run{c: c, failed: map[string]int{}}
+	r := &run{c: c, failed: map[string]int{}, seen: map[string]bool{}}
 	// the pool is a function of the seed only (replays rebuild the same keys)
 	pool = keypool.New(vlib.NewRand(c.Seed).Fork("c05-pool"), 2)
 
